@@ -195,10 +195,13 @@ def run_task(task):
     part = new_partial()
     for i in range(task["start"], task["start"] + task["n"]):
         s = sub_seed(task["seed"], ID, task["fam"], i)
-        if task["fam"] == "msg":
-            run_msg_base(s, task["tier"], part)
-        else:
-            run_file_base(s, task["tier"], part)
+        try:
+            if task["fam"] == "msg":
+                run_msg_base(s, task["tier"], part)
+            else:
+                run_file_base(s, task["tier"], part)
+        except corrupt.BaseNotWritable:
+            part["counters"]["probe:base_object_not_writable"] += 1
     return part
 
 
